@@ -32,6 +32,7 @@ def value_corpus(F, tier, name):
     recs += gen.g_lemire_refined(F, rng, tier)
     recs += gen.g_wide_exact_products(F, rng, tier)
     recs += gen.g_slow_grid(F, rng, tier)
+    recs += gen.g_long_pos_ties(F, rng, tier)
     recs += gen.g_zero_limbs(F, rng, tier)
     recs += gen.g_sparse_bigmant(F, rng, 10 if q else 200) if F.name == "f64" else []
     recs += gen.g_budget_splits(F, rng, tier)[:: 3 if q else 1]
@@ -506,6 +507,7 @@ def long_corpus(F, tier, name):
     recs += gen.g_int_ties(F, rng, 30 if q else 600)
     recs += gen.g_budget_splits(F, rng, tier)
     recs += gen.g_sticky_positions(F, rng, tier)
+    recs += gen.g_long_pos_ties(F, rng, tier)
     recs += gen.g_limb_crossers(F, rng, tier)
     big = 100000 if q else 1000000
     # exact ties with a far-out digit / tails of every length class
@@ -724,6 +726,23 @@ def c14(tier):
         if dict(names) != want:
             raise core.ToolError("table dump of %s incomplete: %s vs %s" % (cfg, dict(names), want))
         recs += got
+    # the spelling of 5^135 for 32-bit limbs is compiled out on this host (cfg(target_pointer_width)): it is read from the
+    # source text and judged by TLC like the dumped one (same record type, configuration "source:u32-limbs")
+    import re
+    src_consts = 0
+    try:
+        text = open(os.path.join(core.REPO, "src", "table_small.rs")).read()
+    except OSError:
+        text = ""
+    for mm in re.finditer(r"pub const LARGE_POW5:\s*\[u32;\s*(\d+)\]\s*=\s*\[([^\]]*)\]", text):
+        vals = [int(x.replace("_", ""), 0) for x in mm.group(2).replace("\n", " ").split(",") if x.strip()]
+        if len(vals) == int(mm.group(1)) and all(0 <= v < (1 << 32) for v in vals):
+            recs.append({"cfg": "source:u32-limbs", "index": 0, "name": "large_pow5", "t": "table",
+                         "value": core.limbs(sum(v << (32 * k) for k, v in enumerate(vals)))})
+            src_consts += 1
+    if not src_consts:
+        core.log("NOTE: no 32-bit-limb spelling of LARGE_POW5 found in src/table_small.rs (source-level datum skipped)")
+    per_cfg["source:u32-limbs"] = src_consts
     # MC part: every datum of the specification's data module against its definition
     mc = core.tlc(os.path.join(core.SPEC, "mc", "MC_Tables.tla"), os.path.join(core.SPEC, "mc", "MC_Tables.cfg"),
                   "C14-mc", coverage=False, cont=False, timeout=600)
@@ -1303,7 +1322,7 @@ def c16(tier):
                                                   for k, o in enumerate(core.read_ndjson(hi_out))]})
         # sequential thread "0": every shape on every input, after stack poisoning
         seq_events = []
-        for shape in range(10):
+        for shape in range(11):
             si = os.path.join(wd, "in-shape%d.ndjson" % shape)
             core.write_ndjson(si, [dict({k: v for k, v in r.items() if k != "tag"}, shape=shape) for r in inputs])
             so = os.path.join(wd, "out-shape%d-%s.ndjson" % (shape, cfg.replace("+", "_")))
@@ -1402,13 +1421,13 @@ def c16(tier):
     cov = {
         "states": mc.distinct + tstates, "transitions": mc.generated + ttrans,
         "traces_validated_against_impl": len(cfgs) * (2 * nthreads + 3), "evaluations": nevents, "histories": len(hist_ids), "oversubscribed_calls": over_calls, "first_use_processes": (40 if q else 400) * len(cfgs),
-        "distinct_nontrivial": len(inputs) * 10,
+        "distinct_nontrivial": len(inputs) * 11,
         "rule": "MC_Calls: 3 threads x 2 inputs x every initial stack content x every interleaving, up to 2 calls per thread; the four "
                 "failure designs (shared scratch buffer, length set before the cells are written, per-thread and global one-entry "
                 "memo keyed by a prefix of the input) must each violate an invariant. "
-                "CF: every input x 10 iterator shapes (slice, chain, filter, skip/step_by, VecDeque ring, hand-written iterator with "
+                "CF: every input x 11 iterator shapes (slice, chain, filter, skip/step_by, VecDeque ring, hand-written iterator with "
                 "size_hint (0,None), rev.rev, two NON-FUSED ones that would yield more bytes if polled after None: hand-written and map_while, "
-                "and slices starting at odd addresses) after stack-poisoning calls, plus 8 concurrent threads each walking all inputs in its own "
+                "slices starting at odd addresses, and an exact-sized chain whose decisive digit comes from outside a buffer that holds a different byte there) after stack-poisoning calls, plus 8 concurrent threads each walking all inputs in its own "
                 "order with rotating shapes; histories of RELATED inputs back to back on one thread (19-digit prefix / just below / "
                 "exact tie / just above a midpoint, exponent one off, other float format); the CF_Calls trace specification enables "
                 "Return only for baseline[input], and the baseline is what a FRESH PROCESS returns for that input alone",
